@@ -47,6 +47,30 @@ def cases(seed, tier):
     return out
 
 
+def _containers(ctx, model, data, where, rng):
+    """The laws speak about the i-th value of the argument: a pandas Series (what GaussianMultivariate hands to
+    its marginals) with any index must give, position by position, what the bare array gives."""
+    import pandas as pd
+    q = np.array([0.03, 0.2, 0.41, 0.5, 0.77, 0.9, 0.99])
+    pts = np.quantile(data, q) + 0.0
+    lab = rng.permutation(len(q))
+    for method, arg in (('cumulative_distribution', pts), ('probability_density', pts),
+                        ('log_probability_density', pts), ('percent_point', q)):
+        ok, base = ctx.call(getattr(model, method), arg.copy())
+        if not ok:
+            continue            # judged by the laws
+        base = np.asarray(base, dtype=float)
+        for name, idx in (('shuffled-int-index', lab), ('offset-index', np.arange(50, 50 + len(q))), ('str-index', ['r%d' % i for i in lab])):
+            ok2, got = ctx.call(getattr(model, method), pd.Series(arg.copy(), index=idx))
+            if not ok2:
+                ctx.violation('query.container-invariance', 'C03:%s-of-series-%s' % (method, exc_mech(got)),
+                              dict(exc_detail(got), index=name, **where))
+                continue
+            got = np.asarray(got, dtype=float)
+            ctx.check(got.shape == base.shape and np.array_equal(got, base, equal_nan=True), 'query.container-invariance',
+                      'C03:%s-depends-on-series-labels' % method, lambda: dict(where, index=name, got=got[:4], as_array=base[:4]))
+
+
 def run_case(spec, ctx):
     from copulas.univariate import Univariate
     ms = spec['model']
@@ -94,6 +118,7 @@ def run_case(spec, ctx):
     if ms['cls'] == 'Univariate':
         where['selected'] = uni.selected_family(model)
     uni.laws(ctx, model, data, where)
+    _containers(ctx, model, data, where, rng_for(spec['data']['seed'], 'containers'))
     ctx.nontriv('%s|%r|%s|%d|%d' % (ms['cls'], ms.get('kwargs'), spec['data']['kind'], len(data),
                                     spec['data']['seed']))
     ctx.sample({'model': ms, 'data': spec['data'], 'first_values': data[:3].tolist()})
